@@ -73,7 +73,7 @@ func (r *Run) Undecided(key, why string) {
 }
 
 func (r *Run) Stat(name string, n int) { r.cur.Stats[name] += n }
-func (r *Run) Note(s string)          { r.cur.Notes = append(r.cur.Notes, s) }
+func (r *Run) Note(s string)           { r.cur.Notes = append(r.cur.Notes, s) }
 
 // ---- known findings ----
 
